@@ -78,3 +78,16 @@ func (s *SimSink) errValue(i int) error {
 	}
 	return &InjectedErr{ID: 1000 + i}
 }
+
+// SimSinkW is a SimSink whose type ALSO has a raw Write method (like a file sink that
+// embeds *os.File or a bytes.Buffer). An adapter built over it must still go through
+// WritePacket; RawWrites counts calls that bypassed it.
+type SimSinkW struct {
+	*SimSink
+	RawWrites int
+}
+
+func (s *SimSinkW) Write(p []byte) (int, error) {
+	s.RawWrites++
+	return len(p), nil
+}
